@@ -3,6 +3,7 @@ package rules
 import (
 	"fmt"
 	"go/ast"
+	"go/constant"
 	"go/token"
 	"go/types"
 	"sort"
@@ -784,9 +785,12 @@ func E3RayHull(c *core.Ctx, r *core.Report) {
 			}
 			if cmp, ok := core.Unparen(be.Y).(*ast.BinaryExpr); ok && cmp.Op == token.LEQ {
 				rhs := core.Unparen(cmp.Y)
-				if add, ok := rhs.(*ast.BinaryExpr); ok && add.Op == token.ADD && core.ConstName(info, add.Y) == "" {
+				if add, ok := rhs.(*ast.BinaryExpr); ok && add.Op == token.ADD {
+					// xhi + Epsilon, in either operand order
 					if id, ok := core.Unparen(add.Y).(*ast.Ident); ok && id.Name == "Epsilon" {
 						xhi = add.X
+					} else if id, ok := core.Unparen(add.X).(*ast.Ident); ok && id.Name == "Epsilon" {
+						xhi = add.Y
 					}
 				}
 			}
@@ -1256,13 +1260,119 @@ func E3LineHeights(c *core.Ctx, r *core.Report) {
 	})
 	r.Count("E3.line-height-folds", n)
 	r.Floor("E3.line-height-folds", 16)
-	// Text.Heights
+	// Text.Heights: structural — the first result is −F.y + a and the second L.y + d, where a is the
+	// ascent (result 1) of F.Heights(…), d the descent (result 2) of L.Heights(…), F the first and L
+	// the last line; compared as polynomials, so operand order and extra locals do not matter
 	th := core.MustFuncDecl(p, "Text.Heights")
-	norm := c.Norm(p, th)
-	if _, ok := core.AlphaSeq(norm, "_,$a,_,_:=$first.Heights($t.WritingMode)", "_,_,$d,_:=$last.Heights($t.WritingMode)", "return -$first.y+$a,$last.y+$d"); ok {
-		r.OK("E3.line-heights", "canvas.Text.Heights", c.Pos(th.Pos()), "ascent of the first line, descent of the last")
-	} else {
-		r.Fail("E3.line-heights", "canvas.Text.Heights", c.Pos(th.Pos()), "Text.Heights does not combine the ascent (2nd result) of the first line with the descent (3rd result) of the last line")
+	{
+		recv := recvObj(info, th)
+		defs := singleDefs(info, th.Body)
+		type tup struct {
+			line types.Object
+			pos  int
+		}
+		tupOf := map[types.Object]tup{}
+		ast.Inspect(th.Body, func(m ast.Node) bool {
+			as, ok := m.(*ast.AssignStmt)
+			if !ok || len(as.Rhs) != 1 || len(as.Lhs) != 4 {
+				return true
+			}
+			call, ok := core.Unparen(as.Rhs[0]).(*ast.CallExpr)
+			if !ok {
+				return true
+			}
+			se, ok := call.Fun.(*ast.SelectorExpr)
+			if !ok || se.Sel.Name != "Heights" {
+				return true
+			}
+			lid, ok := core.Unparen(se.X).(*ast.Ident)
+			if !ok {
+				return true
+			}
+			for k, l := range as.Lhs {
+				if id, ok := l.(*ast.Ident); ok && id.Name != "_" {
+					tupOf[core.ObjOf(info, id)] = tup{core.ObjOf(info, lid), k}
+					delete(defs, core.ObjOf(info, id))
+				}
+			}
+			return true
+		})
+		// which line a variable holds: lines[0] or lines[len-1]
+		lineKind := func(o types.Object) string {
+			d, ok := defs[o]
+			if !ok {
+				return ""
+			}
+			ie, ok := core.Unparen(d).(*ast.IndexExpr)
+			if !ok {
+				return ""
+			}
+			names, rooted := ctxFieldPath(info, ie.X, recv)
+			if !rooted || len(names) != 1 || names[0] != "lines" {
+				return ""
+			}
+			lenSym := func(e ast.Expr) string {
+				if call, ok := e.(*ast.CallExpr); ok && len(call.Args) == 1 {
+					if fn, ok := core.Unparen(call.Fun).(*ast.Ident); ok && fn.Name == "len" {
+						if ns, rooted := ctxFieldPath(info, call.Args[0], recv); rooted && len(ns) == 1 && ns[0] == "lines" {
+							return "n"
+						}
+					}
+				}
+				return ""
+			}
+			pe, ok := polyOf(info, ie.Index, lenSym, nil)
+			switch {
+			case ok && len(pe) == 0:
+				return "first"
+			case ok && polyEqual(pe, poly{"n": 1, "": -1}):
+				return "last"
+			}
+			return ""
+		}
+		lineDefs := map[types.Object]ast.Expr{}
+		for o, d := range defs {
+			if lineKind(o) == "" {
+				lineDefs[o] = d
+			}
+		}
+		sym := func(e ast.Expr) string {
+			switch x := e.(type) {
+			case *ast.Ident:
+				o := core.ObjOf(info, x)
+				if t, ok := tupOf[o]; ok {
+					return fmt.Sprintf("h%d(%s)", t.pos, lineKind(t.line))
+				}
+			case *ast.SelectorExpr:
+				if id, ok := core.Unparen(x.X).(*ast.Ident); ok && x.Sel.Name == "y" {
+					if k := lineKind(core.ObjOf(info, id)); k != "" {
+						return "y(" + k + ")"
+					}
+				}
+			}
+			return ""
+		}
+		okHeights := false
+		ast.Inspect(th.Body, func(m ast.Node) bool {
+			ret, ok := m.(*ast.ReturnStmt)
+			if !ok || len(ret.Results) != 2 {
+				return true
+			}
+			if tv, ok := info.Types[ret.Results[0]]; ok && tv.Value != nil {
+				return true // the early return for an empty text
+			}
+			a, ok1 := polyOf(info, ret.Results[0], sym, lineDefs)
+			b, ok2 := polyOf(info, ret.Results[1], sym, lineDefs)
+			if ok1 && ok2 && polyEqual(a, poly{"y(first)": -1, "h1(first)": 1}) && polyEqual(b, poly{"y(last)": 1, "h2(last)": 1}) {
+				okHeights = true
+			}
+			return true
+		})
+		if okHeights {
+			r.OK("E3.line-heights", "canvas.Text.Heights", c.Pos(th.Pos()), "ascent of the first line, descent of the last")
+		} else {
+			r.Fail("E3.line-heights", "canvas.Text.Heights", c.Pos(th.Pos()), "Text.Heights does not combine the ascent (2nd result) of the first line with the descent (3rd result) of the last line")
+		}
 	}
 }
 
@@ -1868,11 +1978,25 @@ func E3EllipseFrameRotation(c *core.Ctx, r *core.Report) {
 					}
 					return true
 				})
-				if be, ok := e.(*ast.BinaryExpr); ok && be.Op == token.MUL {
-					if u, ok := core.Unparen(be.X).(*ast.UnaryExpr); ok && u.Op == token.SUB {
-						neg = -1
+				// the sign of a product: one factor −1 per negated factor, whatever their order
+				var factors func(e ast.Expr)
+				factors = func(e ast.Expr) {
+					e = core.Unparen(e)
+					if be, ok := e.(*ast.BinaryExpr); ok && be.Op == token.MUL {
+						factors(be.X)
+						factors(be.Y)
+						return
+					}
+					if u, ok := e.(*ast.UnaryExpr); ok && u.Op == token.SUB {
+						neg = -neg
+						factors(u.X)
+						return
+					}
+					if tv, ok := info.Types[e]; ok && tv.Value != nil && constant.Sign(tv.Value) < 0 {
+						neg = -neg
 					}
 				}
+				factors(e)
 				if mentions {
 					sign = s * neg
 				}
